@@ -73,6 +73,6 @@ theorem C16_facts_matter :
     (checkL good ann (.tuple [a3, a3]) { noCtx := false }).2 = .T ∧
     (checkL { good with treepathGuarded := false } ann (.tuple [a3, a3]) { noCtx := false }).2 = .ANN ∧
     (checkL { good with flattenRestores := false } ann (.tuple [a3]) { noCtx := false }).2 = .ANN := by
-  decide
+  decide +kernel
 
 end JV
